@@ -186,6 +186,11 @@ func runC06(c *Ctx) {
 			}
 			w.leaves = append(w.leaves, lf)
 		}
+		if g.Chance(2) {
+			// handed over in two groups: the combined syncer's first two
+			// elements are multi-WriteSyncers themselves
+			members = append([]zapcore.WriteSyncer{zapcore.NewMultiWriteSyncer(members[0:2]...), zapcore.NewMultiWriteSyncer(members[2:4]...)}, members[4:]...)
+		}
 		core = zapcore.NewCore(zapcore.NewJSONEncoder(encCfg()), zap.CombineWriteSyncers(members...), lvl)
 		c.R.Probe("one core over a combined syncer of 5-7 devices")
 	case 0:
